@@ -314,7 +314,7 @@ def sched_pass(ctx, exe, janet, n, broken):
     janet_continue_signal with JANET_SIGNAL_ERROR) a few times; traces, final status and last value of the task must
     equal the model's.  (E'') statuses forward + cleanup forms never run twice for one body fiber is covered by the
     equality with the model plus guard_r1 on the implementation trace."""
-    cov = {"sched_trees": 0, "sched_diffs": 0, "sched_cancels": 0, "sched_resumes": 0, "sched_cancel_of_suspended": 0}
+    cov = {"sched_trees": 0, "sched_diffs": 0, "sched_cancels": 0, "sched_resumes": 0}
     try:
         pre = prelude.prelude_sched(ctx.build.tree)
     except prelude.PreludeError as e:
@@ -582,10 +582,14 @@ def run(ctx, only=None):
     }
     ctx.say("halts %r diffs %d oracle_bad %d stats %r" % (halts, len(diffs), len(oracle_bad), stats))
     return ctx.finish("proof", cov, assumptions=[
-        "theorems are about the Lean model (Fiber/Model.lean, Fiber/Boot.lean); the model is tied to the C by the regenerated constants and by trace correspondence",
-        "not modelled: debug signals / breakpoints, ev scheduler tasks (only the root-fiber refusal), JANET_RECURSION_GUARD (cyclic suspended chains -> `unmodelled`), "
-        "propagate of a dead fiber inside a janet_call frame, fiber functions with parameters",
-        "cleanup `exactly once` is about exits of the body fiber; a body suspended for ever has not exited"])
+        "theorems are about the Lean models (Fiber/Model.lean, Boot.lean, Guard.lean, Sched.lean, Named.lean); the models are tied to the C by the regenerated "
+        "constants / shape flags and by four trace correspondences (plain, lowered recursion guard with janet_vm.stackn, event-loop task, &named)",
+        "not modelled: breakpoints / single-stepping; a recursion-guard trip INSIDE a suspended child chain (`unmodelled`, 0 trees in the thorough tier); what the event "
+        "loop does with a task's result (supervisor channel, stack trace) and tasks that signal event / interrupt to the loop (skipped, counted)",
+        "whole-execution status monotonicity is proved for the guarded machine; the cleanup (`exactly once`) theorems are proved for the unguarded machine and for "
+        "event-loop schedules, and carry over to guarded executions only below the limit (`guarded_is_unguarded_below`)",
+        "dynamic bindings: that a fiber's env index never changes once set is by inspection, not a whole-execution theorem (oracle R6 checks every dyn read)",
+        "cleanup `exactly once` is about exits of the body fiber; a body suspended for ever has not exited; `Priv` (gensym privacy) is a hypothesis"])
 
 
 def replay(ctx, path):
